@@ -12,22 +12,43 @@ type c01TieSuite struct{ c01Suite }
 
 func init() { register("c01tie", c01TieSuite{}) }
 
-type s1Gen struct{ rng *Rng }
+type s1Gen struct {
+	rng  *Rng
+	v    string // the variable the predicate is about ("" = n)
+	edge bool   // v is a relationship: kind atoms are r:EdgeKind…, the interesting property is w
+}
+
+func (g s1Gen) name() string {
+	if g.v == "" {
+		return "n"
+	}
+	return g.v
+}
 
 func (g s1Gen) atom() string {
+	n := g.name()
+	props := []string{"name", "a", "`k-1`"}
+	props2 := []string{"a", "b", "name"}
+	props3 := []string{"a", "name", "zz"}
+	if g.edge {
+		props, props2, props3 = []string{"name", "w"}, []string{"w", "a"}, []string{"w", "zz"}
+	}
 	switch g.rng.Intn(8) {
 	case 0:
-		return "n." + Pick(g.rng, []string{"name", "a", "`k-1`"}) + " = " + Pick(g.rng, []string{"'x'", "'y'", "''", "'it\\'s'", "'1'"})
+		return n + "." + Pick(g.rng, props) + " = " + Pick(g.rng, []string{"'x'", "'y'", "''", "'it\\'s'", "'1'"})
 	case 1, 2:
-		return "n." + Pick(g.rng, []string{"a", "b", "name"}) + " " + Pick(g.rng, []string{"=", "<>"}) + " " + Pick(g.rng, []string{"0", "1", "2", "17"})
+		return n + "." + Pick(g.rng, props2) + " " + Pick(g.rng, []string{"=", "<>"}) + " " + Pick(g.rng, []string{"0", "1", "2", "17"})
 	case 3:
-		return "n." + Pick(g.rng, []string{"a", "name", "zz"}) + " is null"
+		return n + "." + Pick(g.rng, props3) + " is null"
 	case 4:
-		return "n." + Pick(g.rng, []string{"a", "name", "zz"}) + " is not null"
+		return n + "." + Pick(g.rng, props3) + " is not null"
 	case 5, 6:
-		return "id(n) " + Pick(g.rng, []string{"=", "<>", "<", "<=", ">", ">="}) + " " + Pick(g.rng, []string{"0", "1", "2", "3"})
+		return "id(" + n + ") " + Pick(g.rng, []string{"=", "<>", "<", "<=", ">", ">="}) + " " + Pick(g.rng, []string{"0", "1", "2", "3"})
 	default:
-		return "n:" + Pick(g.rng, []string{"NodeKind1", "NodeKind2", "NodeKind1:NodeKind2", "NodeKind2:NodeKind1"})
+		if g.edge {
+			return n + ":" + Pick(g.rng, []string{"EdgeKind1", "EdgeKind2"})
+		}
+		return n + ":" + Pick(g.rng, []string{"NodeKind1", "NodeKind2", "NodeKind1:NodeKind2", "NodeKind2:NodeKind1"})
 	}
 }
 
@@ -107,7 +128,7 @@ func (g s1Gen) query() string {
 	return b.String()
 }
 
-// s2Query: stage S2a — one directed hop, every variable read by the RETURN.
+// s2Query: stage S2b — one directed hop with WHERE conjuncts over single variables, every variable read by the RETURN.
 func (g s1Gen) s2Query() string {
 	kinds := func(opts []string) string { return Pick(g.rng, opts) }
 	a := "(a" + kinds([]string{"", "", ":NodeKind1", ":NodeKind2:NodeKind1"}) + ")"
@@ -136,7 +157,18 @@ func (g s1Gen) s2Query() string {
 			items[i] += fmt.Sprintf(" as c%d", i)
 		}
 	}
-	return "match " + a + "-" + r + "->" + b + " return " + strings.Join(items, ", ")
+	where := ""
+	if g.rng.Chance(3, 4) {
+		// WHERE: 1..4 conjuncts, each an S1 predicate over ONE of a, r, b (a conjunct that is itself a conjunction is parenthesised)
+		n := 1 + g.rng.Intn(4)
+		cs := make([]string, n)
+		for i := range cs {
+			v := Pick(g.rng, []string{"a", "r", "b", "a", "b"})
+			cs[i] = s1Gen{rng: g.rng, v: v, edge: v == "r"}.pred(2, 2)
+		}
+		where = " where " + strings.Join(cs, " and ")
+	}
+	return "match " + a + "-" + r + "->" + b + where + " return " + strings.Join(items, ", ")
 }
 
 func (c01TieSuite) Gen(rng *Rng, tier string, w *bufio.Writer, stats *Stats) {
@@ -144,13 +176,13 @@ func (c01TieSuite) Gen(rng *Rng, tier string, w *bufio.Writer, stats *Stats) {
 	if tier == "thorough" {
 		n = 6000
 	}
-	g := s1Gen{rng}
+	g := s1Gen{rng: rng}
 	for i := 0; i < n; i++ {
 		fmt.Fprintf(w, "# case %d s1\nq %s %d 4 0 0\n", i+1, jsonQuote(g.query()), rng.Intn(1<<20))
 		stats.Inc("s1_generated")
 	}
 	for i := 0; i < n/2; i++ {
-		fmt.Fprintf(w, "# case %d s2a\nq %s %d 4 0 0\n", n+i+1, jsonQuote(g.s2Query()), rng.Intn(1<<20))
-		stats.Inc("s2a_generated")
+		fmt.Fprintf(w, "# case %d s2b\nq %s %d 4 0 0\n", n+i+1, jsonQuote(g.s2Query()), rng.Intn(1<<20))
+		stats.Inc("s2b_generated")
 	}
 }
